@@ -52,20 +52,14 @@ pub fn check_sign(c: &SignCase) -> CaseResult {
                 Ok(Err(e)) => return fail("entry=Sm2PrivateKey::sign input=valid outcome=err", format!("d={:x} k={:x}: {:?}", d, k, e)),
                 Err(p) => return fail(format!("entry=Sm2PrivateKey::sign input=valid outcome=panic site={}", panic_site(&p)), format!("d={:x} k={:x}: {}", d, k, p)),
             };
-            // what the standard prescribes for this sequence of nonces
-            let mut expect = None;
-            let mut used = 0;
-            for kk in [&k, &k2, &k3] {
-                used += 1;
-                if let Some((r, s)) = r2::sign_with_k(&d, &e, kk) {
-                    let mut o = to32(&r).to_vec();
-                    o.extend_from_slice(&to32(&s));
-                    expect = Some(o);
-                    break;
-                }
-            }
-            let expect = expect.ok_or_else(|| Fail { key: "harness: three retries".into(), detail: "three successive nonces all need a retry".into() })?;
-            ensure!(3 - left == used, "entry=Sm2PrivateKey::sign outcome=wrong-retry-behaviour", "d={:x} k={:x}: library consumed {} candidates, the standard's retry rule consumes {}", d, k, 3 - left, used);
+            // the nonce the library used is the last candidate it consumed (it may skip candidates for reasons of its own,
+            // which no listed property forbids); the standard must not demand a retry for that nonce
+            let consumed = 3 - left;
+            ensure!(consumed >= 1, "entry=Sm2PrivateKey::sign outcome=nonce-not-drawn", "no candidate consumed");
+            let k_used = [&k, &k2, &k3][consumed - 1];
+            let (r_, s_) = r2::sign_with_k(&d, &e, k_used).ok_or_else(|| Fail { key: "entry=Sm2PrivateKey::sign outcome=used-a-nonce-that-needs-retry".into(), detail: format!("k={:x}", k_used) })?;
+            let mut expect = to32(&r_).to_vec();
+            expect.extend_from_slice(&to32(&s_));
             ensure!(sig == expect, "entry=Sm2PrivateKey::sign outcome=wrong-signature", "d={:x} k={:x} id#{} |M|={}: library {} standard {}", d, k, c.id, msg.len(), hex::encode(&sig), hex::encode(&expect));
             (sig, true)
         }
@@ -150,6 +144,13 @@ pub fn run(ctx: &Ctx) {
     });
 
     ctx.generated("fixed_nonce_exact", "proptest (d, id, message, k) with k injected: exact equality with the reference signer + both verifications", ctx.tier.pick(2_500, 60_000), sign_case, check_sign);
+
+    let seed0 = ctx.seed;
+    let maxlen = ctx.tier.pick(300usize, 2048usize);
+    ctx.exhaustive("message_lengths", "every message length 0..=300 (thorough 0..=2048), nonce injected: exact signature and both verifications", move || {
+        let n = &r2::params().n;
+        (0..=maxlen).map(|l| SignCase { d: gen::hex32(&(from_be(&expand_bytes(seed0 ^ 0x3d ^ (l as u64 % 4), 32)) % (n - 2u32) + 1u32)), id: l % id_pool().len(), msg_len: l, msg_seed: seed0.wrapping_mul(131) ^ l as u64, k: Some(gen::hex32(&(from_be(&expand_bytes(seed0 ^ 0x3e ^ l as u64, 32)) % (n - 1u32) + 1u32))) }).collect()
+    }, check_sign);
 
     ctx.generated("library_rng_cross_verify", "proptest (d, id, message), nonce from the library's RNG: range, standard verification equation, library verification", ctx.tier.pick(2_500, 40_000), || {
         sign_case().prop_map(|mut c| { c.k = None; c })
